@@ -4,7 +4,7 @@
    candidate, source address and message record.  "= (s, [])" is equality of the whole state
    record (pairs, candidates, selection, liveness timestamps, pending list, counters) with no output. *)
 From Coq Require Import ZArith Bool List.
-From Ice Require Import Model.AgentTypes Model.AgentCore Gen.Consts Proofs.AgentC02.
+From Ice Require Import Model.AgentTypes Model.AgentCore Gen.Consts Proofs.AgentC02 Proofs.AgentC02Hist.
 Import ListNotations.
 Local Open Scope Z_scope.
 
@@ -69,3 +69,25 @@ Example C02_example :
   let bad := set_m_key (Some 4) good in
   snd (step cfg s (InStun 1 src good)) <> [] /\ step cfg s (InStun 1 src bad) = (s, []).
 Proof. vm_compute. split; [discriminate|reflexivity]. Qed.
+
+(* Over histories: every datagram that is rejected where it arrives -- a request whose USERNAME / MESSAGE-INTEGRITY do
+   not verify, a success response whose MESSAGE-INTEGRITY does not verify, an error response, a non-Binding method;
+   under the credentials in force at that moment, so messages of a generation ended by Restart included -- can be
+   erased from ANY history, wherever and however often it occurs, without changing the final state or anything the
+   agent emitted (sends, notifications, deliveries, results), in order. *)
+Theorem C02_rejected_datagrams_can_be_erased : forall cfg ops s,
+  exec cfg s (erase cfg s ops) = exec cfg s ops.
+Proof. exact rejected_datagrams_can_be_erased. Qed.
+Print Assumptions C02_rejected_datagrams_can_be_erased.
+
+Example C02_example_erase :
+  let cfg := mkConfig false 5 7 5000000000 false 25000000000 2000000000 0 0 0 0 [] false false 1 in
+  let l := mkCand 1 1 1 (mkAddr false 167772161 5000) 0 2130706431 1 None in
+  let src := mkAddr false 3232235777 6000 in
+  let r := mkCand 2 1 1 src 0 2130706431 1 None in
+  let good := mkMsg 0 1 77 (Some (1, 3)) (Some 2) true (Some (true, 9)) (Some 100) None None None in
+  let badkey := mkMsg 0 1 78 (Some (1, 3)) (Some 99) true (Some (true, 9)) (Some 100) None None None in
+  let err := mkMsg 3 1 1 None (Some 4) false None None None (Some 487) None in
+  let ops := [AddLocal l; AddRemote r; Start false 3 4; InStun 1 src badkey; InStun 1 src good; InStun 1 src err; Tick; InStun 1 src badkey] in
+  erase cfg (init 1 2) ops = [AddLocal l; AddRemote r; Start false 3 4; InStun 1 src good; Tick].
+Proof. vm_compute. reflexivity. Qed.
